@@ -795,11 +795,44 @@ impl World {
         let ifc: Option<ifund::ConfigResponse> = self.q(&self.ifund, &ifund::QueryMsg::Config {});
         let ifv = self.if_vamms();
         s.push_str(&format!(
-            " if.owner={} if.engine={} if.vamms={} if.stored={}",
+            " if.owner={} if.engine={} if.vamms={} if.stored={} if.qall={} if.qis={} if.qstat={}",
             self.if_owner(),
             ifc.map(|c| self.oid(&c.engine)).unwrap_or(0),
             if ifv.is_empty() { "none".to_string() } else { ifv.iter().map(|a| self.id(a).to_string()).collect::<Vec<_>>().join(",") },
-            self.raw(&self.ifund, b"vamm-list").is_some() as u8
+            self.raw(&self.ifund, b"vamm-list").is_some() as u8,
+            {
+                // the fund's own membership queries (compared with the raw registry by the driver)
+                let all: Option<ifund::AllVammResponse> = self.q(&self.ifund, &ifund::QueryMsg::GetAllVamm { limit: None });
+                match all {
+                    Some(a) if !a.vamm_list.is_empty() => a.vamm_list.iter().map(|x| self.id(x.as_str()).to_string()).collect::<Vec<_>>().join(","),
+                    Some(_) => "none".to_string(),
+                    None => "err".to_string(),
+                }
+            },
+            {
+                let mut yes: Vec<String> = vec![];
+                for i in 0..self.cfg.vamms.len() {
+                    let id = super::cfg::VAMM0 + i as u64;
+                    let r: Option<ifund::VammResponse> = self.q(&self.ifund, &ifund::QueryMsg::IsVamm { vamm: self.addr(id) });
+                    if r.map(|x| x.is_vamm).unwrap_or(false) {
+                        yes.push(id.to_string());
+                    }
+                }
+                if yes.is_empty() { "none".to_string() } else { yes.join(",") }
+            },
+            {
+                let st: Option<ifund::AllVammStatusResponse> = self.q(&self.ifund, &ifund::QueryMsg::GetAllVammStatus { limit: None });
+                match st {
+                    Some(a) if !a.vamm_list_status.is_empty() => a
+                        .vamm_list_status
+                        .iter()
+                        .map(|(x, o)| format!("{}:{}", self.id(x.as_str()), *o as u8))
+                        .collect::<Vec<_>>()
+                        .join(","),
+                    Some(_) => "none".to_string(),
+                    None => "err".to_string(),
+                }
+            }
         ));
         // fee pool
         let toks: Vec<AssetInfo> = self.raw(&self.feepool, b"token-list").and_then(|v| serde_json::from_slice(&v).ok()).unwrap_or_default();
